@@ -76,9 +76,11 @@ theorem rtxDecide_fits {B : Type} (s : St) (allow : B → Int → Bool × B) (aw
   · cases h
   · split at h
     · cases h
-    · have := packAllow_take allow a.b s.cfg.mtu a.bip _ _ _ (by simp [rtx_packetFull]) (by simp [rtx_firstTooBig]) hinv
-        (by have := (sizeInPacket_nonneg s.cfg.useInterleaving c).1; omega) h
-      exact ⟨this.1, this.2.1⟩
+    · split at h
+      · cases h
+      · have := packAllow_take allow a.b s.cfg.mtu a.bip _ _ _ (by simp [rtx_packetFull]) (by simp [rtx_firstTooBig]) hinv
+          (by have := (sizeInPacket_nonneg s.cfg.useInterleaving c).1; omega) h
+        exact ⟨this.1, this.2.1⟩
 
 theorem fastDecide_fits {B : Type} (s : St) (allow : B → Int → Bool × B) (wnd : Int) : DecFits s (fastDecide s allow wnd) := by
   intro i a c b bip hinv h
